@@ -1536,7 +1536,11 @@ func (p *Parser) parseTemplateLiteral(precLeft OpPrec) (template TemplateExpr) {
 		p.next()
 		template.List = append(template.List, TemplatePart{tpl, p.parseExpression(OpExpr)})
 	}
-	if p.tt != TemplateToken && p.tt != TemplateEndToken {
+	if len(template.List) == 0 && p.tt != TemplateToken {
+		p.fail("template literal", TemplateToken)
+		return
+	} else if 0 < len(template.List) && p.tt != TemplateEndToken {
+		// a complete template on a new line behind the expression is not the end of this one
 		p.fail("template literal", TemplateToken)
 		return
 	}
